@@ -337,7 +337,7 @@ class FieldCollection(FieldBase):
             if not issubclass(field_class, DataFieldBase):
                 msg = "Individual fields must be of type DataFieldBase."
                 raise TypeError(msg)
-            field = field_class(grid)
+            field = field_class(grid, dtype=data.dtype)
             end = start + grid.dim**field.rank
             if with_ghost_cells:
                 field._data_flat = data[start:end]
